@@ -141,6 +141,7 @@ func (mavls *Store) MemSet(datas *types.StoreSet, sync bool) ([]byte, error) {
 		tree.Set(datas.KV[i].Key, datas.KV[i].Value)
 	}
 	hash := tree.Hash()
+	verifDelay("memset.hash-store")
 	mavls.trees.Store(string(hash), tree)
 	return hash, nil
 }
@@ -161,6 +162,7 @@ func (mavls *Store) Commit(req *types.ReqHash) ([]byte, error) {
 		mavls.trees.Delete(string(req.Hash))
 		return req.Hash, nil
 	}
+	verifDelay("commit.before-save")
 	hash := tree.(*mavl.Tree).Save()
 	if hash == nil {
 		mlog.Error("store mavl commit", "err", types.ErrHashNotFound)
